@@ -48,7 +48,7 @@ class TreeIO(Comp):
 
     def gen(self, rng, tier, scale=1.0):
         pre = []
-        for i in range(self.n(tier, 250, 8000, scale)):
+        for i in range(self.n(tier, 600, 8000, scale)):
             m, ig = tree_case(rng, userord=(i % 2 == 0), state=(i % 3 != 1), meta_prob=0.05 if i % 2 else 0.0)
             ig.max_inst = 6 if i % 4 == 0 else 4
             f = ig.forest(m)
